@@ -120,6 +120,9 @@ class Prop(core.Prop):
             for step in (0.5, -0.5, 0.25, -0.25, 1.0, -1.0, 2. ** 15, -(2. ** 15), 0.1, -0.1, 1e-3):
                 for shape in ([1, 64], [3, 3], [4, 16]):
                     yield {'part': 'special', 'kind': 'ramp', 'v': step, 'shape': shape}
+            # fields of realistic size (the byte total of the checksum passes 2**24)
+            for shape in ([380, 420],) + (([428, 614],) if self.tier == 'thorough' else ()):
+                yield {'part': 'special', 'kind': 'saw', 'v': 0.37, 'shape': shape}
         elif group.get('gap'):
             yield dict(group, nsfc=1, nup=2, pattern='ramp', levvars=True)
             yield dict(group, nsfc=2, nup=2, pattern='wave', levvars=True)
@@ -161,6 +164,9 @@ class Prop(core.Prop):
             f = np.array([a[i] for i in case['idx']], dtype='d').reshape(case['shape'])
         elif case['kind'] == 'constant':
             f = np.full(case['shape'], case['v'], dtype='d')
+        elif case['kind'] == 'saw':
+            j_, i_ = np.mgrid[0:case['shape'][0], 0:case['shape'][1]]
+            f = 280. + case['v'] * ((3 * i_ + 5 * j_) % 11) + 0.01 * j_
         else:
             n = case['shape'][0] * case['shape'][1]
             f = (10. + case['v'] * np.arange(n)).reshape(case['shape'])
